@@ -14,14 +14,14 @@ UNITS = [
     Unit('l0.observers', ['token_store.py'], 'l0_token_store.py',
          [(None, '_check_store_handle'), ('TokenStore', 'get_index'), ('TokenStore', 'get_next'), ('TokenStore', 'get_prev'), ('TokenStore', 'get_first'),
           ('TokenStore', 'get_last'), ('TokenStore', '__len__'), ('TokenStore', '__iter__'), ('TokenStore', 'iter')],
-         props=['C07', 'C04'], typevars={'_T': 'Token'}, ghost=TS_GHOST),
+         props=['C07', 'C04', 'C01'], typevars={'_T': 'Token'}, ghost=TS_GHOST),
     Unit('l0.structure', ['token_store.py'], 'l0_token_store.py',
          [('TokenStore', '_update_block_indexes'), ('_StoreBlock', 'rebuild'), ('TokenStore', '_merge_blocks'), ('TokenStore', '_splice'), ('TokenStore', '_update_block'),
           ('_StoreBlock', 'from_tokens'), (None, '_build_blocks'), ('TokenStore', '_split_block'), ('TokenStore', '__init__'), ('TokenStore', 'from_tokens')],
-         props=['C07'], typevars={'_T': 'Token'}, ghost=TS_GHOST),
+         props=['C07', 'C19'], typevars={'_T': 'Token'}, ghost=TS_GHOST),
     Unit('l0.mutators', ['token_store.py'], 'l0_token_store.py',
          [('TokenStore', 'splice'), ('TokenStore', 'insert_after'), ('TokenStore', 'insert_before'), ('TokenStore', 'replace'), ('TokenStore', 'remove')],
-         props=['C07', 'C19'], typevars={'_T': 'Token'}, ghost=TS_GHOST),
+         props=['C07', 'C19', 'C03'], typevars={'_T': 'Token'}, ghost=TS_GHOST),
     Unit('l0.caches', ['token_store.py'], 'l0_token_store.py', [('_StoreBlock', 'rebuild'), ('_StoreBlock', 'from_tokens')], lemmas=['fold_frame'], aspect='cache',
          props=['C08'], typevars={'_T': 'Token'}, ghost=TS_GHOST),
     Unit('l1.tokens', ['token_store.py', 'models/base.py', 'models/internal/base_token_models.py', 'models/block_comment.py'], 'l1_tokens.py',
@@ -31,7 +31,7 @@ UNITS = [
           ('SimpleRawTokenModel', '_clone'),
           ('BlockComment', 'raw_text', 'setter'), ('BlockComment', 'value', 'setter'), ('BlockComment', 'indent', 'setter'), ('BlockComment', 'claimed', 'setter'),
           ('BlockComment', '_clone'), ('BlockComment', 'from_raw_text'), ('BlockComment', 'from_value')],
-         props=['C02', 'C08', 'C12', 'C19'], typevars={'_T': 'Token', '_V': 'object'},
+         props=['C02', 'C08', 'C12', 'C19', 'C11'], typevars={'_T': 'Token', '_V': 'object'},
          field_types={'SingleValueRawTokenModel': {'_value': 'INT'}, 'BlockComment': {'_value': 'STR', '_indent': 'STR', '_claimed': 'BOOL'}},
          note='parse/fmt/bc_* codecs are uninterpreted: the setters are verified for every codec; concrete codecs are checked under C12'),
     Unit('l3.views', ['models/internal/value_properties.py'], 'l3_views.py',
